@@ -34,10 +34,18 @@ GAP = {
 @st.composite
 def reference_map(draw, rid, sizes=("tiny", "small", "medium", "medium", "large", "large"), spacing=None):
     size = draw(st.sampled_from(sizes))
+    if size == "large" and draw(st.integers(0, 5)) == 0:
+        size = "huge"
     n = draw({"one": st.just(1), "tiny": st.integers(1, 6), "small": st.integers(8, 30), "medium": st.integers(25, 70),
-              "large": st.integers(50, 120)}[size])
+              "large": st.integers(50, 120), "huge": st.integers(260, 700)}[size])
     kind = spacing or draw(st.sampled_from(["dense", "realistic", "realistic", "sparse", "mixed"]))
-    gaps = draw(st.lists(GAP[kind], min_size=n - 1, max_size=n - 1))
+    if size == "huge":
+        # several hundred labels (beyond 255 / 256 label numbers) from few draws: a drawn block of gaps tiled with an
+        # index-dependent perturbation, so the map is not periodic
+        base = draw(st.lists(GAP[kind], min_size=24, max_size=40))
+        gaps = [base[i % len(base)] + (i * i * 31 + 17 * i) % 1500 for i in range(n - 1)]
+    else:
+        gaps = draw(st.lists(GAP[kind], min_size=n - 1, max_size=n - 1))
     if n >= 10 and draw(st.integers(0, 3)) == 0:       # tandem repeat block
         w = draw(st.integers(3, 7))
         b = draw(st.integers(0, max(0, len(gaps) - w)))
@@ -56,6 +64,8 @@ def reference_map(draw, rid, sizes=("tiny", "small", "medium", "medium", "large"
 
 def _window(draw, ref, kmin, kmax):
     n = len(ref["labels"])
+    if n >= 260 and draw(st.booleans()):
+        kmin, kmax = max(kmin, 130), max(kmax, 450)       # a molecule with hundreds of labels
     hi = min(kmax, n)
     k = draw(st.one_of(st.integers(min(kmin, hi), hi), st.integers(min(max(kmin, 14), hi), hi)))
     i = draw(st.integers(0, n - k))
@@ -202,15 +212,25 @@ def cli_args(draw, options=None, weight_default=3):
     return out
 
 
+# molecule ids that a narrower integer type or a detour through a double would not survive: around 2^31 and 2^32
+# (2^32 + k collides with the small id k modulo 2^32), beyond 2^53 (neighbouring odd ids share a double), near 2^63
+SPECIAL_IDS = [2 ** 31 - 1, 2 ** 31, 2 ** 31 + 1, 2 ** 32 + 1, 2 ** 32 + 2, 2 ** 32 + 3, 2 ** 32 + 7, 3000000001, 2 ** 53 + 1, 2 ** 53 + 3,
+               10 ** 16 + 1, 10 ** 16 + 2, 20260508000000003, 2 ** 63 - 2]
+
+
+def molecule_ids(small, medium):
+    return st.one_of(small, small, medium, medium, st.sampled_from(SPECIAL_IDS))
+
+
 @st.composite
 def pipeline_case(draw, modes=MODES, kinds=ALL_KINDS, max_refs=3, max_queries=6, options=None, weight_default=3,
                   ref_sizes=("tiny", "small", "medium", "medium", "large", "large"), min_queries=1, flank_repeat=0):
     nr = draw(st.integers(1, max_refs))
     # small id ranges on purpose: query ids, reference ids and file positions collide, exposing id/index mix-ups
-    rids = draw(st.lists(st.one_of(st.integers(1, 6), st.integers(1, 999)), min_size=nr, max_size=nr, unique=True))
+    rids = draw(st.lists(molecule_ids(st.integers(1, 6), st.integers(1, 999)), min_size=nr, max_size=nr, unique=True))
     refs = [draw(reference_map(rid, ref_sizes)) for rid in rids]
     nq = draw(st.integers(min_queries, max_queries))
-    qids = draw(st.lists(st.one_of(st.integers(1, 10), st.integers(1, 99999)), min_size=nq, max_size=nq, unique=True))
+    qids = draw(st.lists(molecule_ids(st.integers(1, 10), st.integers(1, 99999)), min_size=nq, max_size=nq, unique=True))
     queries = [draw(query_map(qid, refs, kinds)) for qid in qids]
     case = {"refs": refs, "queries": queries, "mode": draw(st.sampled_from(list(modes))),
             "args": draw(cli_args(options, weight_default))}
